@@ -225,25 +225,36 @@ pub fn sat(fs: &[&str]) -> String {
         (Some(Ok(p)), Some(c)) => rb(|| same_lossy(p, c)),
         _ => dash(),
     };
-    // lossless value built through the constructors
-    // lossless value built through the constructors: answer and tree dump
-    let (lc, lcd) = match &typed {
-        None => (dash(), dash()),
+    // lossless value built through the constructors: answer and tree dump; cw: the same value
+    // after Relations::wrap_and_sort() (which consumes it: built a second time)
+    let build_c = |t: &Vec<Vec<TAlt>>| -> ll::Relations {
+        let entries: Vec<ll::Entry> = t
+            .iter()
+            .map(|e| ll::Entry::from(e.iter().map(|(n, v)| ll::Relation::new(n, v.clone())).collect::<Vec<_>>()))
+            .collect();
+        ll::Relations::from(entries)
+    };
+    let (lc, lcd, cw) = match &typed {
+        None => (dash(), dash(), dash()),
         Some(t) => {
-            let built = std::panic::catch_unwind(AssertUnwindSafe(|| {
-                let entries: Vec<ll::Entry> = t
-                    .iter()
-                    .map(|e| {
-                        ll::Entry::from(e.iter().map(|(n, v)| ll::Relation::new(n, v.clone())).collect::<Vec<_>>())
-                    })
-                    .collect();
-                ll::Relations::from(entries)
-            }));
-            match built {
-                Err(_) => ("PANIC".to_string(), dash()),
-                Ok(r) => (rb(|| r.satisfied_by(closure)), guard(AssertUnwindSafe(|| r.verif_dump()))),
+            let cw = match std::panic::catch_unwind(AssertUnwindSafe(|| build_c(t))) {
+                Err(_) => "PANIC".to_string(),
+                Ok(r) => rb(|| r.wrap_and_sort().satisfied_by(closure)),
+            };
+            match std::panic::catch_unwind(AssertUnwindSafe(|| build_c(t))) {
+                Err(_) => ("PANIC".to_string(), dash(), cw),
+                Ok(r) => (rb(|| r.satisfied_by(closure)), guard(AssertUnwindSafe(|| r.verif_dump())), cw),
             }
         }
+    };
+    // lw: the tolerant reader's tree after Relations::wrap_and_sort()
+    let lw = if has_text {
+        match std::panic::catch_unwind(AssertUnwindSafe(|| ll::Relations::parse_relaxed(&text, false))) {
+            Err(_) => "PANIC".to_string(),
+            Ok((r, _)) => rb(|| r.wrap_and_sort().satisfied_by(closure)),
+        }
+    } else {
+        dash()
     };
     // every versioned alternative gets its constraint through Relation::set_version, starting from a
     // relation chosen by its position in the entry (mod 4): Relation::simple (insert after the name),
@@ -321,9 +332,9 @@ pub fn sat(fs: &[&str]) -> String {
             .collect()
     };
     format!(
-        "ty={}|ll={}|lr={}|ne={}|le={}|ly={}|rt={}|lc={}|yc={}|ym={}|yp={}|sv={}|lcd={}|svd={}|lk={}",
+        "ty={}|ll={}|lr={}|ne={}|le={}|ly={}|rt={}|lc={}|yc={}|ym={}|yp={}|sv={}|lw={}|cw={}|lcd={}|svd={}|lk={}",
         if typed.is_some() { "1" } else { "0" },
-        ll, lr, ne, le, ly, rt, lc, yc, ym, yp, sv, lcd, svd, lk.join(",")
+        ll, lr, ne, le, ly, rt, lc, yc, ym, yp, sv, lw, cw, lcd, svd, lk.join(",")
     )
 }
 
